@@ -54,67 +54,69 @@ type passInfo struct {
 }
 
 type enc struct {
-	w           *World
-	f           *ssa.Function
-	key         string
-	fc          *FuncContract
-	bv          bool
-	strTheory   bool
-	decls       []string
-	declared    map[string]bool
-	asserts     []string
-	obls        []*Obl
-	ordCount    map[string]int
-	names       map[ssa.Value]string
-	heap        hstate
-	heapSort    map[string]string
-	ver         map[string]int
-	reach       map[*ssa.BasicBlock]string
-	heapAt      map[*ssa.BasicBlock]hstate // at block exit
-	heapIn      map[*ssa.BasicBlock]hstate // at block entry (after merge/havoc)
-	entry       hstate
-	locs        map[ssa.Value]loc
-	fresh       int
-	notes       map[string]int
-	info        *passInfo // nil in pass 1
-	rec         *passInfo // recorded in this pass
-	back        map[[2]*ssa.BasicBlock]bool
-	headers     map[*ssa.BasicBlock]int // header -> loop ordinal (1-based)
-	loopBody    map[*ssa.BasicBlock]map[*ssa.BasicBlock]bool
-	order       []*ssa.BasicBlock
-	localAlloc  map[string]bool // refs allocated in this function (term names)
-	defers      []*ssa.Defer
-	curBlock    *ssa.BasicBlock
-	curInstr    ssa.Instruction
-	safeOnly    bool            // sweep mode: no functional contract of its own required
-	assumptions map[string]bool // trusted/unmodelled things used, for evidence
-	callOrd     map[string]int
-	opts        *EncOpts
-	ghostInit   bool
-	ok          bool
-	entryAt     int
-	lastModel   map[string]string
-	usedSpecs   map[string]bool
-	usedSites   map[string]bool
-	priv        []privAlloc
-	taint       map[ssa.Value][2]string
-	lockUses    []lockUse
-	invTouched  []invObj
-	invDone     map[string]bool
-	invBusy     bool
-	curCallRefs []string
-	clockOf     map[string]int
-	storeOf     map[string]storeRec
-	inStore     bool
-	callBinds   map[string]bool // cells bound to the closure being called
-	lockLoops   []lockLoop
-	retVals     []string
-	siteAt      ssa.Instruction
-	callResults map[string]cval
+	w               *World
+	f               *ssa.Function
+	key             string
+	fc              *FuncContract
+	bv              bool
+	strTheory       bool
+	decls           []string
+	declared        map[string]bool
+	asserts         []string
+	obls            []*Obl
+	ordCount        map[string]int
+	names           map[ssa.Value]string
+	heap            hstate
+	heapSort        map[string]string
+	ver             map[string]int
+	reach           map[*ssa.BasicBlock]string
+	heapAt          map[*ssa.BasicBlock]hstate // at block exit
+	heapIn          map[*ssa.BasicBlock]hstate // at block entry (after merge/havoc)
+	entry           hstate
+	locs            map[ssa.Value]loc
+	fresh           int
+	notes           map[string]int
+	info            *passInfo // nil in pass 1
+	rec             *passInfo // recorded in this pass
+	back            map[[2]*ssa.BasicBlock]bool
+	headers         map[*ssa.BasicBlock]int // header -> loop ordinal (1-based)
+	loopBody        map[*ssa.BasicBlock]map[*ssa.BasicBlock]bool
+	order           []*ssa.BasicBlock
+	localAlloc      map[string]bool // refs allocated in this function (term names)
+	defers          []*ssa.Defer
+	curBlock        *ssa.BasicBlock
+	curInstr        ssa.Instruction
+	safeOnly        bool            // sweep mode: no functional contract of its own required
+	assumptions     map[string]bool // trusted/unmodelled things used, for evidence
+	callOrd         map[string]int
+	opts            *EncOpts
+	ghostInit       bool
+	ok              bool
+	entryAt         int
+	lastModel       map[string]string
+	usedSpecs       map[string]bool
+	siteExtra       map[string]cval          // extra names for the site assertions of the current instruction
+	usedFCs         map[*FuncContract]string // contracts applied at call sites -> callee key
+	usedSites       map[string]bool
+	priv            []privAlloc
+	taint           map[ssa.Value][2]string
+	lockUses        []lockUse
+	invTouched      []invObj
+	invDone         map[string]bool
+	invBusy         bool
+	curCallRefs     []string
+	clockOf         map[string]int
+	storeOf         map[string]storeRec
+	inStore         bool
+	callBinds       map[string]bool // cells bound to the closure being called
+	lockLoops       []lockLoop
+	retVals         []string
+	siteAt          ssa.Instruction
+	callResults     map[string]cval
 	callResultTypes map[string]types.Type
-	retTypes    []types.Type
-	lockStates  []hstate        // heap right after each lock acquisition (for atlock())
-	countKeys   map[string]bool // callee keys counted for ncalls()
+	retTypes        []types.Type
+	lockStates      []hstate        // heap right after each lock acquisition (for atlock())
+	countKeys       map[string]bool // callee keys counted for ncalls()
 }
 
 type EncOpts struct {
@@ -512,6 +514,10 @@ func (e *enc) val(v ssa.Value) string {
 			e.harr("G_now", "Int")
 			e.assume(fmt.Sprintf("(=> (or (is-IPtr %s) (is-IMap %s)) (< (birth (ite (is-IPtr %s) (iptr %s) (imap %s))) |G_now@0|))", n, n, n, n, n))
 		}
+		if e.sortOf(c.Type()) == "Slice" {
+			e.harr("G_now", "Int")
+			e.assume(fmt.Sprintf("(or (= (arr %s) 0) (< (birth (arr %s)) |G_now@0|))", n, n))
+		}
 		if _, ok := c.Type().Underlying().(*types.Pointer); ok {
 			e.assume(e.allocated(n, e.entryState()))
 			if e.opts != nil && e.opts.NonnilParams {
@@ -798,6 +804,27 @@ func (e *enc) store(l loc, v string) {
 func (e *enc) now(st hstate) string {
 	e.harr("G_now", "Int")
 	return e.hnameIn("G_now", st)
+}
+
+// allocFacts: whatever a value in scope refers to was allocated before now (not for values the
+// instruction itself allocates).
+func (e *enc) allocFacts(n string, t types.Type) {
+	if tt, ok := t.(*types.Tuple); ok {
+		for k := 0; k < tt.Len(); k++ {
+			e.allocFacts(fmt.Sprintf("%s.c%d", n, k), tt.At(k).Type())
+		}
+		return
+	}
+	now := e.now(e.heap)
+	switch e.sortOf(t) {
+	case "Ref":
+		e.assume(fmt.Sprintf("(or (= %s 0) (< (birth %s) %s))", n, n, now))
+	case "Slice":
+		e.assume(fmt.Sprintf("(or (= (arr %s) 0) (< (birth (arr %s)) %s))", n, n, now))
+	case "Iface":
+		e.assume(fmt.Sprintf("(=> (is-IPtr %s) (< (birth (iptr %s)) %s))", n, n, now))
+		e.assume(fmt.Sprintf("(=> (is-IMap %s) (< (birth (imap %s)) %s))", n, n, now))
+	}
 }
 
 func (e *enc) allocated(r string, st hstate) string {
